@@ -52,6 +52,10 @@ type SegInfo struct {
 	NFrags     int
 	HasStyp    bool
 	SampleDurs []uint32
+	// per fragment: decode time, sequence number, duration
+	FragTfdt []int64
+	FragSeq  []int64
+	FragDur  []int64
 }
 
 func ParseMediaSegment(data []byte, trex *mp4.TrexBox) (*SegInfo, error) {
@@ -80,7 +84,11 @@ func ParseMediaSegment(data []byte, trex *mp4.TrexBox) (*SegInfo, error) {
 			if err != nil {
 				return nil, err
 			}
+			si.FragTfdt = append(si.FragTfdt, int64(fr.Moof.Traf.Tfdt.BaseMediaDecodeTime()))
+			si.FragSeq = append(si.FragSeq, int64(fr.Moof.Mfhd.SequenceNumber))
+			si.FragDur = append(si.FragDur, 0)
 			for _, sm := range samples {
+				si.FragDur[len(si.FragDur)-1] += int64(sm.Dur)
 				si.Dur += int64(sm.Dur)
 				si.SampleDurs = append(si.SampleDurs, sm.Dur)
 				h.Write(sm.Data)
@@ -147,4 +155,53 @@ func CoqRep(r *VodRep) string {
 		segs = append(segs, fmt.Sprintf("{| st := %d; en := %d; snr := %d |}", s.Start, s.End, s.Nr))
 	}
 	return fmt.Sprintf("{| segs := [%s]; ts := %d |}", strings.Join(segs, "; "), r.Timescale)
+}
+
+// FragRec is the record of one moof/mdat pair that the model of genLiveSegment's rewrite works on.
+type FragRec struct {
+	Seq, Tfdt, MoofSize, TfdtSize, DataOffset int64
+	Samples                                   [][4]int64 // dur, size, flags, composition offset
+}
+
+// FragRecords decodes a media segment into fragment records.
+func FragRecords(data []byte, trex *mp4.TrexBox) ([]FragRec, error) {
+	f, err := mp4.DecodeFile(bytes.NewReader(data))
+	if err != nil {
+		return nil, err
+	}
+	var out []FragRec
+	for _, s := range f.Segments {
+		for _, fr := range s.Fragments {
+			traf := fr.Moof.Traf
+			if traf == nil || traf.Trun == nil || traf.Tfdt == nil {
+				return nil, fmt.Errorf("incomplete moof")
+			}
+			rec := FragRec{Seq: int64(fr.Moof.Mfhd.SequenceNumber), Tfdt: int64(traf.Tfdt.BaseMediaDecodeTime()),
+				MoofSize: int64(fr.Moof.Size()), TfdtSize: int64(traf.Tfdt.Size()), DataOffset: int64(traf.Trun.DataOffset)}
+			samples, err := fr.GetFullSamples(trex)
+			if err != nil {
+				return nil, err
+			}
+			for _, sm := range samples {
+				rec.Samples = append(rec.Samples, [4]int64{int64(sm.Dur), int64(sm.Size), int64(sm.Flags), int64(sm.CompositionTimeOffset)})
+			}
+			out = append(out, rec)
+		}
+	}
+	return out, nil
+}
+
+// CoqFrags prints fragment records as a list of LiveSeg.frag terms (the bytes of the moof other than the
+// tfdt box are all put in front of it: only their sum is observable).
+func CoqFrags(recs []FragRec) string {
+	var fs []string
+	for _, r := range recs {
+		var ss []string
+		for _, s := range r.Samples {
+			ss = append(ss, fmt.Sprintf("(%d, %d, %d, %s)", s[0], s[1], s[2], Zs(s[3])))
+		}
+		fs = append(fs, fmt.Sprintf("{| f_seq := %d; f_tfdt := %d; f_before := %d; f_after := 0; f_data_offset := %d; f_saio := None; f_samples := [%s] |}",
+			r.Seq, r.Tfdt, r.MoofSize-r.TfdtSize, r.DataOffset, strings.Join(ss, "; ")))
+	}
+	return "[" + strings.Join(fs, ";\n   ") + "]"
 }
